@@ -378,7 +378,7 @@ theorem top_quotient (P Q : R[X]) (n degp : Nat) (F : Nat → R) (hQ : Q.Monic) 
 theorem splitAll_spec {o : Ops α} {φ : α → R} (h : Hom o φ) (c : Ctx) (P : R[X]) (tmplen : Nat) :
     ∀ (below : List (List (List α))) (hi blocks : List (List α)) (m : Nat),
       DownChain φ (hi :: below) → Blocks φ P hi blocks m → 1 ≤ hi.length → (∀ a ∈ hi, a.length = m) →
-      1 ≤ m → m ≤ 2 ^ 62 → 5 * m ≤ tmplen → Fits c m →
+      1 ≤ m → m ≤ 2 ^ 62 → 5 * m ≤ tmplen → Fits c (m / 2) →
       ∃ bl lo ml, splitAll c o tmplen below blocks = some bl ∧ (hi :: below).getLast? = some lo ∧
         Blocks φ P lo bl ml ∧ (∀ a ∈ lo, a.length = ml) ∧ 1 ≤ lo.length := by
   intro below
@@ -421,7 +421,7 @@ theorem multiEvalTree_spec {o : Ops α} {φ : α → R} (h : HomE o φ) (c : Ctx
     (layers : List (List (List α))) (top : List α) (hch : Chain φ 1 layers)
     (htop : layers.getLast? = some [top]) (hlen : layers.length = top.length.log2 + 1)
     (hn1 : 1 ≤ top.length) (hn62 : top.length ≤ 2 ^ 61) (hp1 : 1 ≤ p.length) (hp2 : p.length ≤ top.length + 1)
-    (hfit : Fits c (top.length + 1)) (hinv : ∃ i, o.inv o.one = some i) :
+    (hfit : Fits c (top.length / 2 + 1)) (hinv : ∃ i, o.inv o.one = some i) :
     ∃ vals, multiEvalTree c o p layers = some vals ∧ vals.length = (layers.getD 0 []).length ∧
       ∀ j, j < (layers.getD 0 []).length →
         φ (vals.getD j o.zero) =
@@ -442,7 +442,7 @@ theorem multiEvalTree_spec {o : Ops α} {φ : α → R} (h : HomE o φ) (c : Ctx
   have lrevq : revq.length = n + 1 := by simp [hrevq]
   obtain ⟨dst, ed, ld, hdst⟩ := divModXn_spec h c (middleSpec_holds h.toHom c) revp revq (10 * n)
     (by rw [lrevp, lrevq]) (by rw [lrevq]; omega) (by rw [lrevq]; omega) (by rw [lrevq]; omega)
-    (by rw [lrevq]; intro _; omega) (by rw [lrevq]; exact hfit)
+    (by rw [lrevq]; intro _; omega) (by rw [lrevq]; exact hfit.mono (by omega))
     (by
       obtain ⟨i, hi⟩ := hinv
       refine ⟨i, ?_⟩
